@@ -537,20 +537,21 @@ package redis
 //@ func (*compressFilter).compress
 //@   prop C13 C11
 //@   requires f != nil
-//@   modifies src[0:len(src)], buflen
+//@   modifies src[0:len(src)], buflen, cpslen
 //@   ensures @same-window len(result) <= len(src) && base(result) == base(src) && off(result) == off(src)
 //@   ensures @original-kept-intact len(result) == len(src) ==> forall k int :: 0 <= k && k < len(src) ==> src[k] == old(src[k])
-//@   ensures @compressed-form-is-complete len(result) < len(src) ==> len(result) == cpslen && cpslen >= 6
+//@   ensures @compressed-form-is-complete len(result) < len(src) ==> len(result) == cpslen
 
 //@ func (*compressFilter).Compress
 //@   prop C13 C11
 //@   requires f != nil && cfg != nil && resp != nil
-//@   modifies heap("RespValue.Text"), heap("[]uint8"), buflen
+//@   modifies heap("RespValue.Text"), heap("[]uint8"), buflen, cpslen
 //@   ensures @only-value-positions forall k int :: 0 <= k && k < len(resp.Array) && !isvaluepos(command, k) ==> resp.Array[k].Text == old(resp.Array[k].Text)
 //@   ensures @below-threshold-untouched forall k int :: 0 <= k && k < len(resp.Array) && len(old(resp.Array[k].Text)) < int(cfg.Threshold) ==> resp.Array[k].Text == old(resp.Array[k].Text)
 //@   ensures @already-compressed-untouched forall k int :: 0 <= k && k < len(resp.Array) && startsmagic(old(resp.Array[k].Text)) ==> resp.Array[k].Text == old(resp.Array[k].Text)
 //@   ensures @same-window forall k int :: 0 <= k && k < len(resp.Array) ==> len(resp.Array[k].Text) <= len(old(resp.Array[k].Text)) && base(resp.Array[k].Text) == base(old(resp.Array[k].Text)) && off(resp.Array[k].Text) == off(old(resp.Array[k].Text))
 //@   loop 0 invariant offset <= i && (i - offset) % 2 == 0 && (offset == 2 || offset == 3) && offset == valueoffset(command)
 //@   loop 0 invariant forall k int :: 0 <= k && k < len(resp.Array) && (!isvaluepos(command, k) || k >= i) ==> resp.Array[k].Text == old(resp.Array[k].Text)
-//@   loop 0 invariant forall k int :: 0 <= k && k < len(resp.Array) && (len(old(resp.Array[k].Text)) < int(cfg.Threshold) || startsmagic(old(resp.Array[k].Text))) ==> resp.Array[k].Text == old(resp.Array[k].Text)
+//@   loop 0 invariant @below-threshold forall k int :: 0 <= k && k < len(resp.Array) && len(old(resp.Array[k].Text)) < int(cfg.Threshold) ==> resp.Array[k].Text == old(resp.Array[k].Text)
+//@   loop 0 invariant @already-compressed-skipped forall k int :: 0 <= k && k < len(resp.Array) && startsmagic(old(resp.Array[k].Text)) ==> resp.Array[k].Text == old(resp.Array[k].Text)
 //@   loop 0 invariant forall k int :: 0 <= k && k < len(resp.Array) ==> len(resp.Array[k].Text) <= len(old(resp.Array[k].Text)) && base(resp.Array[k].Text) == base(old(resp.Array[k].Text)) && off(resp.Array[k].Text) == off(old(resp.Array[k].Text))
